@@ -16,7 +16,9 @@ cp -r "$ROOT/harness/src" "$ROOT/harness/build.rs" "$ROOT/harness/Cargo.toml" "$
 cp /repo/Cargo.lock "$HD/Cargo.lock"
 sed -i "s#path = \"/repo\"#path = \"$WT\"#" "$HD/Cargo.toml"
 set +e
-GV_CORPUS="${GV_CORPUS:-$ROOT/corpus/sections}" GV_HARNESS="$HD" GV_WORK="/tmp/$TAG/work" GV_EVIDENCE="${GV_EVIDENCE:-/tmp/$TAG/evidence}" GV_REPLAY="${GV_REPLAY:-$ROOT/replay/mut}" "$ROOT/check" "$PID" --tier "$TIER"
+GV_REPO="$WT" GV_CORPUS="${GV_CORPUS:-$ROOT/corpus/sections}" GV_HARNESS="$HD" GV_WORK="/tmp/$TAG/work" GV_EVIDENCE="${GV_EVIDENCE:-/tmp/$TAG/evidence}" GV_REPLAY="${GV_REPLAY:-$ROOT/replay/mut}" "$ROOT/check" "$PID" --tier "$TIER"
 rc=$?
+# the translator tie regenerated coq/Gen from the patched tree: restore it from /repo
+[ -f "$ROOT/translate/tables.py" ] && python3 "$ROOT/translate/tables.py" /repo "$ROOT/coq/Gen" >/dev/null 2>&1
 echo "mutcheck: exit $rc"
 exit $rc
